@@ -1,7 +1,7 @@
 """C04 — counterexamples marked valid are reproducible (value parsing, validity labelling,
 refine-once control flow).
 
-Obligations: T-refine, Props/C04.vo, lint.
+Obligations: T-refine, T-solvefs, T-solvedispatch, Props/C04.vo, lint.
 Ties (every run):
   X-const   solve.parse_const_value on generated value texts (three syntaxes + malformed)
             vs the extracted model vs the intended value;
@@ -16,7 +16,19 @@ Ties (every run):
             validity flag and number of solver runs; (b) with the real solvers on real
             Path queries that need refinement of mul/div/mod/sdiv/smod (must end valid,
             with values that satisfy the exact EVM constraints) or contain exp (must be
-            labelled potentially invalid).
+            labelled potentially invalid), at every width sevm declares an abstraction
+            (256 / 264 / 512), incl. zero divisors with the value of the bare SMT-LIB operator
+            (no EVM model exists: never valid);
+  X-fs      sequences of queries solved by the real solve_end_to_end in ONE dump directory
+            (as with --dump-smt-directory: path ids repeat, files of other queries / of an
+            earlier run are there), with a scripted solver that answers by the content of the
+            file it is handed: the reported model must be the solver's model of the current
+            query, the files left behind must be the current query's; result, validity,
+            number of runs and the whole directory afterwards vs the extracted model
+            (Model/SolveFsModel.v interpreting the regenerated gen_dump / gen_low_level);
+  X-l3      python -m halmos --dump-smt-directory end to end on fabricated projects with
+            overloaded tests, several runs sharing the directory, each test with exactly one
+            failing input: every counterexample marked valid must assign that input.
 """
 import itertools
 import os
@@ -28,13 +40,14 @@ from harness import common
 from harness.common import Model
 
 PID = "C04"
-TRANSLATORS = ["T-refine"]
+TRANSLATORS = ["T-refine", "T-solvefs", "T-solvedispatch"]
 KNOWN = []
 
 ASSUMPTIONS = [
     "the external solver's model satisfies the query it was given (solver soundness); the check replays every valid counterexample on the exact EVM constraints as support",
     "solver outputs are ASCII; Python's int() leniencies (underscores, signs, surrounding whitespace) are outside the model because halmos_var_pattern only passes [01]+ / [0-9a-fA-F]+ / decimal digits to parse_const_value",
-    "the dispatch of _solve_end_to_end_callback on model.is_valid (valid list vs `potentially invalid` warning) is read from __main__.py, not executed",
+    "the dispatch of _solve_end_to_end_callback on model.is_valid (valid list vs `potentially invalid` warning) is read from __main__.py; it is executed only by the X-l3 runs",
+    "the solver reads the file named on its command line while it runs and nothing else writes to the dump directory in between (one process per dump directory; path ids are unique among the paths of one function that are solved concurrently)",
     "the extracted model and driver are faithful to the Coq definitions (extraction is trusted)",
 ]
 PARTIAL = "C04_valid_cex (a valid model, replayed as an input, drives the concrete EVM to the reported panic) needs the C01 reference interpreter and is not part of this module; the check replays valid models on the path constraints with exact arithmetic instead"
@@ -226,8 +239,9 @@ def tdiv(a, b):
     return q if (a < 0) == (b < 0) else -q
 
 
-def exact(op, x, y):
-    m = 1 << 256
+def exact(op, x, y, w=256):
+    """EVM / Yellow Paper value of the operation at width w (x / 0 = x % 0 = 0)"""
+    m = 1 << w
     if op == "mul":
         return (x * y) % m
     if op == "exp":
@@ -238,10 +252,23 @@ def exact(op, x, y):
         return x // y
     if op == "mod":
         return x % y
-    sx, sy = signed(256, x), signed(256, y)
+    sx, sy = signed(w, x), signed(w, y)
     if op == "sdiv":
         return tdiv(sx, sy) % m
     return (sx - sy * tdiv(sx, sy)) % m
+
+
+def smtlib_total(op, x, y, w=256):
+    """value of the bare SMT-LIB operator (bvudiv x 0 = ~0, bvurem x 0 = x, bvsdiv x 0 = 1 / ~0,
+    bvsrem x 0 = x): what a rewriting that forgets the EVM's zero case would make satisfiable"""
+    m = 1 << w
+    if y != 0 or op in ("mul", "exp"):
+        return exact(op, x, y, w)
+    if op == "div":
+        return m - 1
+    if op == "sdiv":
+        return 1 if signed(w, x) < 0 else m - 1
+    return x
 
 
 def gen_real_cases(tier, r):
@@ -257,54 +284,339 @@ def gen_real_cases(tier, r):
         pin = "both" if (big or y0 >= (1 << 200)) else r.choice(["x", "y", "both"])
         if op in ("div", "mod", "sdiv", "smod") and pin == "x":
             pin = "y"
-        cases.append({"op": op, "x0": x0, "y0": y0, "pin": pin, "r": exact(op, x0, y0), "solver": ["z3", "yices"][i % 2], "cache": i % 3 == 0})
+        # quick tier: z3 (seconds per 256-bit product / quotient) on two of the ten, yices on the rest
+        solver = ["z3", "yices"][i % 2] if tier != "quick" else ("z3" if i in (0, 3) else "yices")
+        if solver == "z3" and op != "mul":
+            pin = "both"      # z3 bit-blasts a 256-bit division with a free operand for tens of seconds
+        cases.append({"op": op, "x0": x0, "y0": y0, "pin": pin, "r": exact(op, x0, y0), "solver": solver, "cache": i % 3 == 0})
     cases.append({"op": "exp", "x0": 3, "y0": 2, "pin": "both", "r": 9, "solver": "z3", "cache": False})
     cases.append({"op": "exp", "x0": 3, "y0": 2, "pin": "x", "r": 9, "solver": "yices", "cache": False})
     # first answer sat (abstraction as a free function), refined query unsat: 2 * 3 = 7 has no model
     cases.append({"op": "mul", "x0": 2, "y0": 3, "pin": "both", "r": 7, "solver": "z3", "cache": True})
     cases.append({"op": "div", "x0": 7, "y0": 0, "pin": "both", "r": 1, "solver": "yices", "cache": False})
+    # every refinable abstraction at every width sevm declares it (ADDMOD / MULMOD use 264 / 512 bits):
+    # a zero divisor / modulus with the result the bare SMT-LIB operator would give (no EVM model
+    # exists, so no valid counterexample may come out), and the EVM result (must end valid)
+    wide = [("div", 256), ("mod", 256), ("sdiv", 256), ("smod", 256), ("mod", 264), ("mod", 512), ("mul", 512)]
+    k = 0
+    for op, w in wide:
+        reps = 1 if tier == "quick" else 6
+        for _ in range(reps):
+            x0 = r.choice([r.randrange(1, 1 << 16), r.randrange(1 << (w - 1), 1 << w)])
+            ys = ([0] if op != "mul" else []) + ([r.choice([1, 3, 7, r.randrange(1, 1 << 12)])] if (w != 256 or tier != "quick") else [])
+            for y0 in ys:
+                for rr in sorted({exact(op, x0, y0, w), smtlib_total(op, x0, y0, w)}):
+                    k += 1
+                    # z3 only where it answers at once (256-bit div / sdiv); yices everywhere else
+                    solver = "z3" if (w == 256 and op in ("div", "sdiv") and k % 2 == 0) else "yices"
+                    cases.append({"op": op, "w": w, "x0": x0, "y0": y0, "pin": "both", "r": rr, "solver": solver, "cache": k % 4 == 0})
+    # near misses with a non-zero divisor
+    for op in (["div", "smod"] if tier == "quick" else ops):
+        x0, y0 = r.randrange(1 << 200, 1 << 256), r.randrange(2, 1 << 12)
+        k += 1
+        cases.append({"op": op, "x0": x0, "y0": y0, "pin": "both", "r": (exact(op, x0, y0) + 1) % (1 << 256), "solver": "yices", "cache": False})
     return cases
 
 
-def run_real(case, td):
-    from pathlib import Path as P
+def real_prepare(case):
+    """the z3 side (not thread safe): the Path and its query -> (args, SMTQuery)"""
     from types import SimpleNamespace as NS
 
     import z3
-    import halmos.solve as S
     from halmos.sevm import Path, f_div, f_exp, f_mod, f_mul, f_sdiv, f_smod
     from halmos.solvers import SOLVERS
     from halmos.utils import create_solver
 
-    x = z3.BitVec("p_x_uint256_00", 256)
-    y = z3.BitVec("p_y_uint256_01", 256)
-    f = {"mul": f_mul[256], "div": f_div, "mod": f_mod[256], "sdiv": f_sdiv, "smod": f_smod, "exp": f_exp}[case["op"]]
+    w = case.get("w", 256)
+    x = z3.BitVec(f"p_x_uint{w}_00", w)
+    y = z3.BitVec(f"p_y_uint{w}_01", w)
+    f = {"mul": f_mul.get(w), "div": f_div, "mod": f_mod.get(w), "sdiv": f_sdiv, "smod": f_smod, "exp": f_exp}[case["op"]]
     path = Path(create_solver())
     path.append(f(x, y) == case["r"])
     if case["pin"] in ("x", "both"):
         path.append(x == case["x0"])
     if case["pin"] in ("y", "both"):
         path.append(y == case["y0"])
-    d = tempfile.mkdtemp(dir=td)
     cmd = [Z3] if case["solver"] == "z3" else [YICES] + list(SOLVERS["yices"].arguments)
     args = NS(verbose=0, cache_solver=case["cache"], resolved_solver_command=cmd, solver_timeout_assertion=25)
+    return args, path.to_smt2(args)
+
+
+def run_real(case, td, shared=None, prepared=None):
+    """shared: a dump directory that already served other queries with the same path id (as with
+    --dump-smt-directory); a case that carries "same_dir_before" re-creates that history first.
+    prepared: real_prepare(case) made beforehand (this part only runs processes and regexes, so
+    groups of cases may run in threads)."""
+    from pathlib import Path as P
+
+    import halmos.solve as S
+
+    if shared is None and case.get("same_dir_before"):
+        shared = tempfile.mkdtemp(dir=td)
+        for prev in case["same_dir_before"]:
+            run_real(prev, td, shared)
+    args, query = prepared if prepared is not None else real_prepare(case)
+    d = shared or tempfile.mkdtemp(dir=td)
+    f1, f2 = P(d) / "1.smt2.out", P(d) / "1.refined.smt2.out"
+
+    def stamp(pth):
+        return (pth.stat().st_mtime_ns, pth.read_text()) if pth.exists() else None
+
+    b1, b2 = stamp(f1), stamp(f2)
     sctx = S.SolvingContext(dump_dir=P(d))
-    ctx = S.PathContext(args=args, path_id=1, solving_ctx=sctx, query=path.to_smt2(args))
+    ctx = S.PathContext(args=args, path_id=1, solving_ctx=sctx, query=query)
     out = S.solve_end_to_end(ctx)
     try:
         sctx.executor.shutdown(wait=True)
     except Exception:  # noqa: BLE001  (shutdown re-raises a solver timeout; not this property)
         pass
-    o1 = (P(d) / "1.smt2.out").read_text() if (P(d) / "1.smt2.out").exists() else None
-    o2 = (P(d) / "1.refined.smt2.out").read_text() if (P(d) / "1.refined.smt2.out").exists() else None
+    a1, a2 = stamp(f1), stamp(f2)
+    o1 = a1[1] if (a1 is not None and a1 != b1) else None      # written by this solve
+    o2 = a2[1] if (a2 is not None and a2 != b2) else None
     res = res_code(out.result)
     obs = {"result": res, "valid": (1 if out.model.is_valid else 0) if out.model is not None else 0,
            "source": 0 if out.model is None else (o1 is not None) + (o2 is not None),
            "runs": (o1 is not None) + (o2 is not None), "out1": o1, "out2": o2,
            "model": None if out.model is None else {k: v.value for k, v in out.model.model.items()},
            "changes": ctx.refine().query.smtlib != ctx.query.smtlib}
-    shutil.rmtree(d, ignore_errors=True)
+    if shared is None:
+        shutil.rmtree(d, ignore_errors=True)
     return obs
+
+
+# ----------------------------------------------------------------- X-fs (a dump directory that outlives a query)
+
+FS_SOLVER = r"""#!/bin/sh
+# scripted solver that answers by the `; key=K` line of the file it is HANDED (K.r when the file
+# defines an f_evm_ function, i.e. is a refined query); shell builtins only, to keep it cheap
+D='@D@'
+f="$1"
+if [ ! -f "$f" ]; then echo "${f##*/} NOFILE" >> "$D/log"; echo '(error "no file")'; exit 0; fi
+k=""; r=""; seen=""
+while IFS= read -r line || [ -n "$line" ]; do
+  case "$line" in
+    "; key="*) if [ -z "$seen" ]; then k="${line#; key=}"; seen=1; fi;;
+    *"(define-fun f_evm_"*) r=".r";;
+  esac
+done < "$f"
+k="$k$r"
+echo "${f##*/} $k" >> "$D/log"
+if [ -f "$D/ans/$k.sleep" ]; then sleep 4; fi
+if [ -f "$D/ans/$k.out" ]; then
+  cat "$D/ans/$k.out"
+  if [ -f "$D/ans/$k.err" ]; then cat "$D/ans/$k.err" >&2; fi
+  if [ -f "$D/ans/$k.rc" ]; then exit 1; fi
+else
+  echo '(error "no answer")'
+fi
+"""
+
+FS_RESULT = {"valid": 1, "abstract": 1, "unsat": 0, "unknown": 2, "garbage": 3, "timeout": 2}
+
+
+def fs_answer(kind, v):
+    """-> (stdout, stderr) of the scripted solver for an answer kind and model value v"""
+    if kind == "valid":
+        return (f"sat\n(\n  (define-fun p_x_uint256_00 () (_ BitVec 256) #x{v:064x})\n)\n", "")
+    if kind == "abstract":
+        return (f"sat\n(\n  (define-fun p_x_uint256_00 () (_ BitVec 256) #x{v:064x})\n"
+                "  (define-fun f_evm_bvmul_256 ((x!0 (_ BitVec 256)) (x!1 (_ BitVec 256))) (_ BitVec 256) #x00)\n)\n", "")
+    if kind == "unsat":
+        return ("unsat\n(error \"line 9: model is not available\")\n", "")
+    if kind == "unknown":
+        return ("unknown\n", "")
+    if kind == "garbage":
+        return ("(error \"boom\")\n", f"boom {v}\n")
+    return ("", "")  # timeout: never printed
+
+
+def fs_smtlib(key, changes):
+    decl = ("(declare-fun f_evm_bvmul_256 ((_ BitVec 256) (_ BitVec 256)) (_ BitVec 256))\n" if changes
+            else "(declare-fun f_evm_exp_256 ((_ BitVec 256) (_ BitVec 256)) (_ BitVec 256))\n")
+    return f"; key={key}\n" + decl + "(declare-fun p_x_uint256_00 () (_ BitVec 256))\n(assert true)\n"
+
+
+def gen_sessions(tier, r):
+    """A session = one dump directory (as with --dump-smt-directory: shared by the overloads
+    of a test, the probes of an invariant test, successive runs) and a sequence of path
+    conditions solved in it.  Path ids restart / repeat, so files named like the current
+    query's are usually there already, left by a DIFFERENT query."""
+    n = 32 if tier == "quick" else 300
+    sessions = []
+    for si in range(n):
+        pre = []
+        if r.random() < 0.6:  # leftovers of an earlier run
+            for j in range(r.randint(1, 3)):
+                pid = r.choice([0, 1, 2])
+                inf = r.choice(["", "", ".refined"])
+                key = f"old{si}x{j}"
+                kind = r.choice(["valid", "valid", "unsat", "abstract"])
+                style = r.choice(["dump", "dump", "empty", "nokey"])
+                content = {"dump": "(set-logic QF_AUFBV)\n" + fs_smtlib(key, False) + "\n(check-sat)\n(get-model)\n",
+                           "empty": "", "nokey": "(set-logic QF_AUFBV)\n(assert false)\n(check-sat)\n"}[style]
+                pre.append({"name": f"{pid}{inf}.smt2", "content": content, "key": key, "kind": kind, "v": r.randrange(1 << 64)})
+                if r.random() < 0.5:
+                    pre.append({"name": f"{pid}{inf}.smt2.out", "content": fs_answer(kind, 7)[0], "key": None})
+                if r.random() < 0.2:
+                    pre.append({"name": f"{pid}{inf}.smt2.err", "content": "old error\n", "key": None})
+        steps = []
+        pid = r.choice([0, 1, 2])
+        for j in range(r.randint(2, 5)):
+            if r.random() < 0.35:
+                pid = r.choice([0, 1, 2, 10])
+            k1 = r.choice(["valid", "valid", "abstract", "abstract", "abstract", "unsat", "unknown", "garbage"])
+            if tier != "quick" and r.random() < 0.03:
+                k1 = "timeout"
+            steps.append({"key": f"s{si}q{j}", "path_id": pid, "is_refined": r.random() < 0.15, "cache": r.random() < 0.4,
+                          "changes": r.random() < 0.75, "core_hit": r.random() < 0.08,
+                          "k1": k1, "v1": r.randrange(1 << 64),
+                          "k2": r.choice(["valid", "valid", "abstract", "unsat", "unknown", "garbage"]), "v2": r.randrange(1 << 64)})
+        sessions.append({"pre": pre, "steps": steps})
+    if tier == "quick":  # one answer that does not arrive in time
+        sessions.append({"pre": [{"name": "0.smt2", "content": "(set-logic QF_AUFBV)\n" + fs_smtlib("oldT", False) + "\n(check-sat)\n(get-model)\n",
+                                  "key": "oldT", "kind": "valid", "v": 5}],
+                         "steps": [{"key": "T0", "path_id": 0, "is_refined": False, "cache": False, "changes": True, "core_hit": False,
+                                    "k1": "timeout", "v1": 1, "k2": "valid", "v2": 2},
+                                   {"key": "T1", "path_id": 0, "is_refined": False, "cache": False, "changes": True, "core_hit": False,
+                                    "k1": "abstract", "v1": 3, "k2": "valid", "v2": 4}]})
+    return sessions
+
+
+def fs_spec(step):
+    """What the property demands of one solve, from the answers the solver gives for THIS query:
+    -> dict(result, valid, runs, value, keys) (value: reported value of p_x or None; keys: the
+    queries the solver must have been asked, in order)."""
+    key = step["key"]
+    if step["core_hit"]:
+        return {"result": 0, "valid": 0, "runs": 0, "value": None, "keys": []}
+    k1 = step["k1"]
+    if k1 == "abstract" and not step["is_refined"] and step["changes"]:
+        k2 = step["k2"]
+        return {"result": FS_RESULT[k2], "valid": int(k2 == "valid"), "runs": 2,
+                "value": step["v2"] if k2 in ("valid", "abstract") else None, "keys": [key, key + ".r"]}
+    return {"result": FS_RESULT[k1], "valid": int(k1 == "valid"), "runs": 1,
+            "value": step["v1"] if k1 in ("valid", "abstract") else None, "keys": [key]}
+
+
+def read_dir(d):
+    return {p.name: p.read_text() for p in sorted(d.iterdir()) if p.is_file()}
+
+
+def run_session(sess, td):
+    """Runs the real solve_end_to_end for every step of the session in ONE dump directory.
+    -> list of observations (one per step)."""
+    from pathlib import Path as P
+    from types import SimpleNamespace as NS
+
+    import halmos.solve as S
+    from halmos.sevm import SMTQuery
+
+    base = P(tempfile.mkdtemp(dir=td))
+    d = base / "dump"
+    d.mkdir()
+    (base / "ans").mkdir()
+    sh = base / "solver.sh"
+    sh.write_text(FS_SOLVER.replace("@D@", str(base)))
+    sh.chmod(sh.stat().st_mode | stat.S_IEXEC)
+
+    def register(key, kind, v):
+        if kind == "timeout":
+            (base / "ans" / f"{key}.sleep").write_text("")
+            return
+        o, e = fs_answer(kind, v)
+        (base / "ans" / f"{key}.out").write_text(o)
+        if e:
+            (base / "ans" / f"{key}.err").write_text(e)
+        if kind == "garbage":   # solvers exit with a non-zero status on an error
+            (base / "ans" / f"{key}.rc").write_text("1")
+
+    for f in sess["pre"]:
+        (d / f["name"]).write_text(f["content"])
+        if f.get("key"):
+            register(f["key"], f["kind"], f["v"])
+    obs = []
+    for st in sess["steps"]:
+        register(st["key"], st["k1"], st["v1"])
+        register(st["key"] + ".r", st["k2"], st["v2"])
+        before = read_dir(d)
+        log0 = (base / "log").read_text().splitlines() if (base / "log").exists() else []
+        q = SMTQuery(fs_smtlib(st["key"], st["changes"]), ["11", "12", "13"])
+        sctx = S.SolvingContext(dump_dir=d)
+        if st["core_hit"]:
+            sctx.unsat_cores.append(["12", "11"])
+        args = NS(verbose=0, cache_solver=st["cache"], resolved_solver_command=["/bin/sh", str(sh)],
+                  solver_timeout_assertion=1.0 if st["k1"] == "timeout" else 20)
+        ctx = S.PathContext(args=args, path_id=st["path_id"], solving_ctx=sctx, query=q, is_refined=st["is_refined"])
+        o = {"before": before, "refined_smtlib": ctx.refine().query.smtlib}
+        try:
+            out = S.solve_end_to_end(ctx)
+            o.update({"result": res_code(out.result), "valid": (1 if out.model.is_valid else 0) if out.model is not None else 0,
+                      "model": None if out.model is None else {k: v.value for k, v in out.model.model.items()}})
+        except Exception as e:  # noqa: BLE001
+            o["exc"] = f"{type(e).__name__}: {e}"
+        finally:
+            try:
+                sctx.executor.shutdown(wait=True)
+            except Exception:  # noqa: BLE001
+                pass
+        log1 = (base / "log").read_text().splitlines() if (base / "log").exists() else []
+        o["asked"] = [ln.split(" ", 1) for ln in log1[len(log0):]]   # [file name, key of its content]
+        o["after"] = read_dir(d)
+        obs.append(o)
+    shutil.rmtree(base, ignore_errors=True)
+    return obs
+
+
+def S_(s):
+    return [len(s)] + txt(s)
+
+
+def fs_model_call(sess, st, o):
+    """the same step for the extracted model: directory before, answers registered so far"""
+    answers = []
+    for f in sess["pre"]:
+        if f.get("key"):
+            answers.append((f["key"], f["kind"], f["v"]))
+    for s2 in sess["steps"]:
+        answers.append((s2["key"], s2["k1"], s2["v1"]))
+        answers.append((s2["key"] + ".r", s2["k2"], s2["v2"]))
+        if s2 is st:
+            break
+    a = [int(st["core_hit"]), int(st["is_refined"]), int(st["cache"]), st["path_id"]]
+    a += S_(fs_smtlib(st["key"], st["changes"])) + S_(o["refined_smtlib"])
+    a += [3] + S_("11") + S_("12") + S_("13")
+    a += [len(o["before"])]
+    for name, content in o["before"].items():
+        a += S_(name) + S_(content)
+    a += [len(answers)]
+    for key, kind, v in answers:
+        so, se = fs_answer(kind, v)
+        a += S_(key) + [1 if kind == "timeout" else 0] + S_(so) + S_(se)
+    return ("c04_fs", a)
+
+
+def fs_model_decode(mo):
+    """-> dict(result, valid, runs, source, after)"""
+    if not mo or len(mo) < 4:
+        return None
+    res, valid, runs = mo[0], mo[1], mo[2]
+    i = 3
+
+    def get():
+        nonlocal i
+        n = mo[i]
+        s = untxt(mo[i + 1:i + 1 + n])
+        i += 1 + n
+        return s
+
+    src = get()
+    n = mo[i]
+    i += 1
+    after = {}
+    for _ in range(n):
+        name = get()
+        after[name] = get()
+    return {"result": res, "valid": valid, "runs": runs, "source": src, "after": after}
 
 
 # ----------------------------------------------------------------- run
@@ -313,6 +625,14 @@ def run(rep, tier):
     import logging
 
     logging.getLogger("halmos").setLevel(logging.CRITICAL)  # scripted solver answers are deliberately odd
+    import time
+
+    phases, t_last = {}, [time.time()]
+
+    def phase(name):
+        phases[name] = round(time.time() - t_last[0], 1)
+        t_last[0] = time.time()
+
     b = common.build_property(PID, TRANSLATORS)
     common.standard_obligations(rep, PID, b)
     exe = None
@@ -322,17 +642,32 @@ def run(rep, tier):
         if exe is None:
             rep.fail("broken-tie", "extracted model driver does not build: " + log[-400:], case={})
     m = Model(exe) if exe is not None else None
+    if m is not None and not all(t.get("ok") for t in b["translators"]):
+        # a translator no longer understands the source (reported by standard_obligations): coq/Gen is
+        # stale, so the extracted model is not a model of THIS source; keep to spec-vs-implementation
+        m = None
     r = common.rng(PID)
     nfail = [0]
+    # development aid: VERIF_C04_ONLY=fs,l3 restricts the correspondence run to some families
+    # (the evidence then says so); the obligations are always checked
+    only = [x for x in os.environ.get("VERIF_C04_ONLY", "").split(",") if x]
+
+    def fam_on(fam):
+        return not only or fam in only
+
+    nkind = {}
 
     def fail(kind, what, case, **kw):
+        # at most 12 failing inputs and 6 broken ties are written out (one kind must not crowd out the other)
         nfail[0] += 1
-        if nfail[0] <= 12:
+        nkind[kind] = nkind.get(kind, 0) + 1
+        if nkind[kind] <= (12 if kind == "failing-input" else 6):
             rep.fail(kind, what, case=case, **kw)
 
+    phase("build")
     # ---- X-const
-    cases = const_cases(tier, r)
-    mres = m.parallel_batch([("c04_parse_const", txt(s)) for s, _ in cases]) if m else None
+    cases = const_cases(tier, r) if fam_on("const") else []
+    mres = (m.parallel_batch([("c04_parse_const", txt(s)) for s, _ in cases]) if cases else []) if m else None
     for i, (s, want) in enumerate(cases):
         got = real_parse_const(s)
         form = "malformed" if want is None else ("#b" if s.startswith("#b") else "#x" if s.startswith("#x") else "bv-token" if s.startswith("bv") else "(_ bvN W)")
@@ -346,8 +681,9 @@ def run(rep, tier):
             if mv != got:
                 fail("broken-tie", f"parse_const_value({s[:80]!r}): implementation {got}, model {mv}", {"const": s, "implementation": got, "model": mv})
 
+    phase("const")
     # ---- X-model
-    outs = model_outputs(tier, r)
+    outs = model_outputs(tier, r) if fam_on("model") else []
     calls, meta = [], []
     for k, o in enumerate(outs):
         got = real_parse_model(o["text"])
@@ -374,6 +710,7 @@ def run(rep, tier):
             if mv != have:
                 fail("broken-tie", f"parse_model_str entry {name}: implementation {have}, model {mv} on {outs[k]['text'][:300]!r}", {"model_output": outs[k]["text"], "name": name})
 
+    phase("model")
     # ---- X-print
     from halmos.solvers import SOLVERS
 
@@ -383,6 +720,8 @@ def run(rep, tier):
     if tier != "quick":
         pcases += [(w, r.randrange(1 << w)) for w in (1, 3, 7, 8, 9, 64, 160, 255, 256, 257, 264, 512) for _ in range(8)]
     pcalls, pmeta = [], []
+    if not fam_on("print"):
+        pcases = []
     for sname, cmd, syn in solver_cmds:
         for w, n in pcases:
             vt, stdout = solver_value_text(cmd, w, n)
@@ -402,6 +741,7 @@ def run(rep, tier):
             if mo is None or untxt(mo) != vt:
                 fail("broken-tie", f"{sname} prints {vt[:80]!r} for ({w} bits, {n}); the Spec printer gives {None if mo is None else untxt(mo)[:80]!r}", {"print": [sname, w, n]})
 
+    phase("print")
     # ---- X-e2e scripted
     td = tempfile.mkdtemp(prefix="c04_")
     keys = list(CANNED)
@@ -416,10 +756,12 @@ def run(rep, tier):
                 scripted.append({"out1": o1, "out2": o2, "core_hit": core_hit, "is_refined": is_refined, "changes": changes, "cache": core_hit or r.random() < 0.3})
     calls = []
     obs_s = []
+    if not fam_on("scripted"):
+        scripted = []
     for c in scripted:
         obs_s.append(run_scripted(c, td))
         calls.append(("c04_e2e", [int(c["core_hit"]), int(c["is_refined"]), int(c["changes"]), len(CANNED[c["out1"]])] + txt(CANNED[c["out1"]]) + txt(CANNED[c["out2"]])))
-    mres = m.parallel_batch(calls) if m is not None else None
+    mres = (m.parallel_batch(calls) if calls else []) if m is not None else None
     for i, (c, o) in enumerate(zip(scripted, obs_s)):
         rep.count("scripted_first_answer", c["out1"])
         rep.case({"scripted": c}, nontrivial=c["out1"].startswith("sat"))
@@ -439,16 +781,114 @@ def run(rep, tier):
             if want != have:
                 fail("broken-tie", f"solve_end_to_end on {c}: implementation {have}, model {want}", {"scripted": c, "implementation": have, "model": want})
 
+    phase("scripted")
+    # ---- X-fs: sequences of queries solved in one dump directory
+    sessions = gen_sessions(tier, r) if fam_on("fs") else []
+    fcalls, fmeta = [], []
+    for si, sess in enumerate(sessions):
+        obs = run_session(sess, td)
+        for j, (st, o) in enumerate(zip(sess["steps"], obs)):
+            name = f"{st['path_id']}{'.refined' if st['is_refined'] else ''}.smt2"
+            stale = name in o["before"]
+            rep.count("fs_step", ("stale-file-present/" if stale else "fresh/") + st["k1"])
+            case = {"session": {"pre": sess["pre"], "steps": sess["steps"][:j + 1]}}
+            rep.case({"fs": common.case_hash(case)}, nontrivial=stale and not st["core_hit"])
+            if "exc" in o:
+                fail("failing-input", f"solve_end_to_end raised {o['exc']} in a used dump directory (step {j} of {sess['steps'][:j + 1]})", case, sig={"what": "e2e-raises"})
+                continue
+            sp = fs_spec(st)
+            timeout = st["k1"] == "timeout"
+            got_v = (o["model"] or {}).get("p_x_uint256_00")
+            asked_keys = [a[1] if len(a) > 1 else "" for a in o["asked"]]
+            if o["result"] == 1 and got_v != sp["value"]:
+                fail("failing-input", f"the counterexample reported for query {st['key']} (valid={o['valid']}) is p_x = {got_v}, but the solver's model of THIS query is p_x = {sp['value']}; "
+                     f"the solver was handed {o['asked']} (a file left in the dump directory by another query: {sorted(o['before'])})", case,
+                     sig={"what": "stale-query"})
+            elif (o["result"], o["valid"]) != (sp["result"], sp["valid"]):
+                fail("failing-input", f"query {st['key']} in a used dump directory ended with result {o['result']} valid {o['valid']}; the solver's answers to this query give result {sp['result']} valid {sp['valid']} (solver was handed {o['asked']})", case,
+                     sig={"what": "stale-query" if asked_keys != sp["keys"] else "fs-verdict"})
+            elif not timeout and asked_keys != sp["keys"]:
+                fail("failing-input", f"query {st['key']}: the solver was handed files holding the queries {asked_keys}, expected {sp['keys']}", case, sig={"what": "stale-query"})
+            else:
+                # the files left behind are those of this query (observe_at: dumped .smt2 / .smt2.out)
+                for i, k in enumerate(sp["keys"]):
+                    fn = name if (i == 0) else f"{st['path_id']}.refined.smt2"
+                    body = o["after"].get(fn, "")
+                    if f"; key={st['key']}\n" not in body or (k.endswith(".r")) != ("(define-fun f_evm_" in body):
+                        fail("failing-input", f"after solving {st['key']}, {fn} does not hold this query: {body[:120]!r}", case, sig={"what": "dump-file-stale"})
+                    elif not (timeout and i == 0):
+                        kind, v = (st["k1"], st["v1"]) if i == 0 else (st["k2"], st["v2"])
+                        if o["after"].get(fn + ".out") != fs_answer(kind, v)[0]:
+                            fail("failing-input", f"after solving {st['key']}, {fn}.out is not the solver's answer to it: {o['after'].get(fn + '.out', '')[:120]!r}", case, sig={"what": "dump-file-stale"})
+            fcalls.append(fs_model_call(sess, st, o))
+            fmeta.append((case, st, o))
+    if m is not None and fcalls:
+        for (case, st, o), mo in zip(fmeta, m.parallel_batch(fcalls)):
+            want = fs_model_decode(mo)
+            have = {"result": o["result"], "valid": o["valid"], "runs": len(o["asked"]), "after": o["after"]}
+            if want is not None and st["k1"] == "timeout":
+                have["runs"] = want["runs"]
+            if want is None or any(want[k] != have[k] for k in have):
+                diff = None if want is None else {k: (have[k], want[k]) for k in have if want[k] != have[k]}
+                fail("broken-tie", f"solve_end_to_end in a used dump directory, query {st['key']}: implementation vs model (implementation, model) differ in {str(diff)[:600]}", case)
+
+    phase("fs")
+    # ---- X-l3: python -m halmos --dump-smt-directory, runs sharing the directory, overloaded tests
+    from harness import c04_l3
+
+    for scn in (c04_l3.gen_scenarios(tier, r) if fam_on("l3") else []):
+        try:
+            lobs = c04_l3.run_scenario(scn)
+        except Exception as e:  # noqa: BLE001
+            fail("broken-tie", f"the end-to-end run with --dump-smt-directory could not be made: {type(e).__name__}: {e}", {"l3": scn})
+            continue
+        for k, o in enumerate(lobs):
+            case = {"l3": {"runs": scn["runs"][:k + 1], "solver": scn["solver"]}}
+            rep.count("l3_run", f"run {k + 1} in the same dump directory, {len(o['tests'])} tests")
+            rep.case({"l3": common.case_hash(case)}, nontrivial=True)
+            if o["error"] is not None:
+                fail("broken-tie", f"halmos produced no report: {o['error'][-300:]}", case)
+                continue
+            for sig, t in o["tests"].items():
+                valid = [mm for mm in t["models"] if mm["valid"]]
+                wrong = [mm for mm in valid if mm["y"] != t["want"]]
+                if wrong:
+                    fail("failing-input", f"python -m halmos --dump-smt-directory, run {k + 1}: {sig} reports the valid counterexample {wrong[0]['names']} with y = {wrong[0]['y']}, "
+                         f"but the test fails only for y = {t['want']} (files in the directory: {o['dump_files']})", case, sig={"what": "cex-not-reproducible"})
+                elif t["status"] != "FAIL" or not valid:
+                    fail("failing-input", f"python -m halmos --dump-smt-directory, run {k + 1}: {sig} fails for y = {t['want']} but ended {t['status']} with models {t['models']}", case,
+                         sig={"what": "refinement-lost-cex"})
+
+    phase("l3")
     # ---- X-e2e with the real solvers
-    rcases = gen_real_cases(tier, r)
+    rcases = gen_real_cases(tier, r) if fam_on("real") else []
     calls, robs = [], []
-    for c in rcases:
-        o = run_real(c, td)
+    # three consecutive cases share one dump directory and the path id (a used directory);
+    # the groups are independent of each other and run in threads (solver processes)
+    from concurrent.futures import ThreadPoolExecutor
+
+    prepared = [real_prepare(c) for c in rcases]
+
+    def run_group(g0):
+        rdir_ = tempfile.mkdtemp(dir=td)
+        return [run_real(rcases[i], td, shared=rdir_, prepared=prepared[i]) for i in range(g0, min(g0 + 3, len(rcases)))]
+
+    with ThreadPoolExecutor(4) as ex:
+        all_obs = [o for part in ex.map(run_group, range(0, len(rcases), 3)) for o in part]
+    group = []
+    for idx, c in enumerate(rcases):
+        if idx % 3 == 0:
+            group = []
+        o = all_obs[idx]
         robs.append(o)
-        rep.count("real_e2e", f"{c['op']}/{c['solver']}")
+        if group:
+            c = rcases[idx] = dict(c, same_dir_before=list(group))
+        group.append({k: v for k, v in c.items() if k != "same_dir_before"})
+        rep.count("real_e2e", f"{c['op']}{c.get('w', 256)}/{c['solver']}" + ("" if c["r"] == exact(c["op"], c["x0"], c["y0"], c.get("w", 256)) else "/no-evm-model"))
         rep.case({"real": c}, nontrivial=True)
-        xs = {"x": (o["model"] or {}).get("p_x_uint256_00"), "y": (o["model"] or {}).get("p_y_uint256_01")}
-        consistent = c["r"] == exact(c["op"], c["x0"], c["y0"])
+        w = c.get("w", 256)
+        xs = {"x": (o["model"] or {}).get(f"p_x_uint{w}_00"), "y": (o["model"] or {}).get(f"p_y_uint{w}_01")}
+        consistent = c["r"] == exact(c["op"], c["x0"], c["y0"], w)
         if c["op"] == "exp":
             if o["result"] == 1 and o["valid"]:
                 fail("failing-input", f"a counterexample that depends on the exp abstraction was labelled valid: {c} -> {o['model']}", {"real": c, "implementation": o}, sig={"what": "valid-with-abstraction"})
@@ -464,7 +904,7 @@ def run(rep, tier):
                 fail("failing-input", f"a valid counterexample was reported for constraints that have no solution: {c} -> {o['model']}", {"real": c, "implementation": o}, sig={"what": "invalid-cex-valid"})
         if o["result"] == 1 and o["valid"] and c["op"] != "exp":
             # reproducibility on the exact constraints
-            if xs["x"] is None or xs["y"] is None or exact(c["op"], xs["x"], xs["y"]) != c["r"] \
+            if xs["x"] is None or xs["y"] is None or exact(c["op"], xs["x"], xs["y"], w) != c["r"] \
                     or (c["pin"] in ("x", "both") and xs["x"] != c["x0"]) or (c["pin"] in ("y", "both") and xs["y"] != c["y0"]):
                 fail("failing-input", f"the valid counterexample {xs} does not satisfy the exact constraints of {c}", {"real": c, "implementation": o["model"]}, sig={"what": "cex-not-reproducible"})
         if m is not None and o["out1"] is not None and o["result"] != 2:  # a solver timeout leaves no output to replay
@@ -483,13 +923,15 @@ def run(rep, tier):
             if want != have:
                 fail("broken-tie", f"solve_end_to_end with {c['solver']} on {c}: implementation {have}, model on the recorded solver outputs {want}", {"real": c, "implementation": have, "model": want})
     shutil.rmtree(td, ignore_errors=True)
-    rep.coverage["traces_validated_against_impl"] = len(scripted) + len(rcases) if m is not None else 0
+    phase("real")
+    rep.coverage["phase_seconds"] = phases
+    rep.coverage["traces_validated_against_impl"] = len(scripted) + len(rcases) + len(fcalls) if m is not None else 0
     return rep.finish(
-        checker_cmd="make -C coq Props/C04.vo (coq_makefile, coqc 8.16.1) after regenerating coq/Gen/GenRefine.v from /repo/src/halmos/solve.py",
+        checker_cmd="make -C coq Props/C04.vo (coq_makefile, coqc 8.16.1) after regenerating coq/Gen/GenRefine.v, GenSolveFs.v and GenSolveDispatch.v from /repo/src/halmos/solve.py",
         trusted_base=common.TRUSTED_BASE_COMMON + ["the z3 and yices-smt2 binaries in /venv/bin as truthful solvers in the end-to-end part of the correspondence run"],
         assumptions=ASSUMPTIONS,
-        partial=PARTIAL,
-        rule="five case families: (1) const: value texts in the syntaxes #b / #x (both cases) / (_ bvN W) / bvN for boundary and random values up to 512 bits plus malformed texts; non-trivial = well-formed value > 9; (2) model_output: generated get-model outputs with 1-5 define-fun entries (halmos_/p_/other names, |quoted|, wrapped lines, three value syntaxes, unparsable values); (3) print: real z3 / yices-smt2 (halmos' arguments, and --smt2-model-format alone) printing the model of x = n at widths 8/160/256/264; (4) scripted: every combination of canned first/refined solver answers x unsat-core hit x already-refined x refinement-changes-text through the real solve_end_to_end; non-trivial = first answer is sat; (5) real: Path queries f_evm_op(x, y) = r with x and/or y pinned, through the real solve_end_to_end with real z3 / yices (refinement needed), incl. exp (must stay potentially invalid) and unsatisfiable-after-refinement ones; distinct by hash of the case",
+        partial=PARTIAL + (f"; THIS RUN WAS RESTRICTED to the families {only} (VERIF_C04_ONLY)" if only else ""),
+        rule="five case families: (1) const: value texts in the syntaxes #b / #x (both cases) / (_ bvN W) / bvN for boundary and random values up to 512 bits plus malformed texts; non-trivial = well-formed value > 9; (2) model_output: generated get-model outputs with 1-5 define-fun entries (halmos_/p_/other names, |quoted|, wrapped lines, three value syntaxes, unparsable values); (3) print: real z3 / yices-smt2 (halmos' arguments, and --smt2-model-format alone) printing the model of x = n at widths 8/160/256/264; (4) scripted: every combination of canned first/refined solver answers x unsat-core hit x already-refined x refinement-changes-text through the real solve_end_to_end; non-trivial = first answer is sat; (5) real: Path queries f_evm_op(x, y) = r with x and/or y pinned, through the real solve_end_to_end with real z3 / yices (refinement needed), incl. exp (must stay potentially invalid) and unsatisfiable-after-refinement ones; (6) fs: sessions of 2-5 queries solved in one dump directory pre-populated (60%) with files of an earlier run, path ids drawn from a small set so that names collide, scripted solver keyed by the content it is handed, first / refined answers from {valid, abstract, unsat, unknown, garbage, timeout}, unsat-core hits, already-refined contexts; non-trivial = a file named like the current query's was already there; (7) l3: python -m halmos --dump-smt-directory on fabricated contracts with overloaded tests (identity / XOR / ADD conditions, one failing input each), two runs sharing the directory; distinct by hash of the case",
     )
 
 
@@ -503,6 +945,17 @@ def replay(rep, body):
             print(case["model_output"], "->", real_parse_model(case["model_output"]))
         elif "scripted" in case:
             print(case["scripted"], "->", run_scripted(case["scripted"], td))
+        elif "l3" in case:
+            from harness import c04_l3
+
+            for k, o in enumerate(c04_l3.run_scenario(case["l3"])):
+                print(f"run {k + 1}:", {sig: {"status": t["status"], "valid models": [mm["y"] for mm in t["models"] if mm["valid"]], "only failing input": t["want"]}
+                                        for sig, t in o["tests"].items()}, o["dump_files"])
+        elif "session" in case:
+            sess = case["session"]
+            for st, o in zip(sess["steps"], run_session(sess, td)):
+                print(st, "\n   directory before:", sorted(o["before"]), "\n   solver was handed:", o.get("asked"), "\n   ->",
+                      {k: o.get(k) for k in ("result", "valid", "model", "exc") if k in o}, "\n   this query's answers demand:", fs_spec(st))
         elif "real" in case:
             o = run_real(case["real"], td)
             print(case["real"], "->", {k: o[k] for k in ("result", "valid", "source", "runs", "model")})
